@@ -96,8 +96,8 @@ def correspondence_for_module(chk, orc, E, root, gogarble, seed_hex, label, extr
                 continue
             for d in parse_list(ans):
                 desc, decision = d.split("=>")
-                kind, name, cls, opath, toobf, gaid, recv, ts, intr, sh = desc.split("|")
-                mops.append("decidem %s %s %s %s %s %s %s" % (kind, name, cls, opath, recv, ts, sh))
+                kind, name, cls, opath, toobf, gaid, recv, ts, intr, sh, emb = desc.split("|")
+                mops.append("decidem %s %s %s %s %s %s %s %s" % (kind, name, cls, opath, recv, ts, sh, emb))
                 expect.append(decision)
                 nobj += 1
                 kinds[kind] = kinds.get(kind, 0) + 1
